@@ -67,7 +67,7 @@ func doExec(s *scope, cmdIn pyObject, cacheOutput, storeNegative, outputAsList b
 	if isType(cmdIn, "str") {
 		argv = strings.Fields(string(cmdIn.(pyString)))
 	} else if isType(cmdIn, "list") {
-		pl := cmdIn.(pyList)
+		pl := mustList(cmdIn)
 		argv = make([]string, 0, len(pl))
 		for i := 0; i < len(pl); i++ {
 			argv = append(argv, pl[i].String())
